@@ -15,7 +15,7 @@ def observe(tier):
     if tier == "thorough":
         # all documents two mutations away (above) + one in 20 (by content hash and seed) of those three mutations away
         g3 = C.TlcGen("OdmlConvertGen.tla", "MC_Convert_thorough.cfg", "convert3", workers=8)
-        n3, f3 = par.replay_stream(C.thin(dedupe(g3.chunks(100)), 20), "harness.convert", os.path.join(d, "R3"), shard=5000)
+        n3, f3 = par.replay_stream(dedupe(C.thin(g3.chunks(100), 20)), "harness.convert", os.path.join(d, "R3"), shard=5000)
         files += f3
         records["R3 (1 in 20)"] = n3
         tlc.append({"cfg": "MC_Convert_thorough.cfg", "cmd": g3.describe(), "states": g3.stats["distinct"], "transitions": g3.n_lines, "wall_s": round(g3.wall, 1)})
